@@ -178,7 +178,7 @@ theorem trail_split (p : UInt8 → Bool) (s : Bytes) :
   rw [this]
   exact ⟨T, hT, hlen, by simp, by simp⟩
 
-theorem spacesThenDashes_some (s : Bytes) (n : Nat) (h : spacesThenDashes s = some n) :
+theorem c9_spacesThenDashes_some (s : Bytes) (n : Nat) (h : spacesThenDashes s = some n) :
     ∃ sp, (∀ b ∈ sp, b = 32) ∧ sp.length = n ∧ s = sp ++ 45 :: 45 :: s.drop (n + 2) := by
   unfold spacesThenDashes at h
   simp only at h
@@ -312,7 +312,7 @@ theorem strip_subStartComment (repl s : Bytes) (hr : strip repl = [45, 45]) :
   unfold subStartComment
   split
   · rename_i n hn
-    obtain ⟨sp, h1, _, h3⟩ := spacesThenDashes_some s n hn
+    obtain ⟨sp, h1, _, h3⟩ := c9_spacesThenDashes_some s n hn
     conv => rhs; rw [h3]
     rw [strip_append, strip_append, hr, strip_spaces sp h1, strip_cons_nws 45 _ rfl, strip_cons_nws 45 _ rfl]
     rfl
@@ -511,7 +511,7 @@ theorem lf_subStartComment (repl s : Bytes) (hr : (10 : UInt8) ∉ repl) :
   unfold subStartComment
   split
   · rename_i n hn
-    obtain ⟨sp, h1, _, h3⟩ := spacesThenDashes_some s n hn
+    obtain ⟨sp, h1, _, h3⟩ := c9_spacesThenDashes_some s n hn
     have := lf_not_mem_spaces sp h1
     conv => rhs; rw [h3]
     simp [hr, this]
